@@ -258,7 +258,134 @@ def s_tzc(ex, m):
     return cache[key]
 
 
+def n_is_nmea_hdr2(b2: int) -> bool:
+    return bytes((0x24, b2)) in _nmea_hdrs()
+
+
+def s_is_nmea_hdr2(ex, b2):
+    if isinstance(b2, int):
+        return n_is_nmea_hdr2(b2)
+    acc = False
+    for h in _nmea_hdrs():
+        acc = ex.bm.or_(acc, mk_bool(zint(b2) == h[1]))
+    return acc
+
+
+def n_eol(data: bytes, q: int) -> int:
+    i = data.find(b"\n", q)
+    return len(data) if i < 0 else i + 1
+
+
+def n_ext_parse(proto, raw, o1, o2, o3):
+    """run the real protocol parser; status 0 + value, or the index (1-based) of the exception class it raised"""
+    from pvc.models_io import ext_classes
+    classes = ext_classes(proto)
+    try:
+        if proto == "ubx":
+            from pyubx2 import UBXReader
+            return 0, UBXReader.parse(raw, msgmode=o1, parsebitfield=o2, validate=o3)
+        if proto == "nmea":
+            from pynmeagps import NMEAReader
+            return 0, NMEAReader.parse(raw, msgmode=o1, validate=o2)
+        from pyrtcm import RTCMReader
+        return 0, RTCMReader.parse(raw, labelmsm=o1, validate=o2)
+    except tuple(classes) as e:
+        for i, c in enumerate(classes):
+            if type(e) is c:
+                return i + 1, None
+        raise
+
+
+def s_ext_parse(ex, proto, raw, o1, o2, o3):
+    from pvc.models_io import ext_parse
+    return ext_parse(ex, proto, raw, o1, o2, o3)
+
+
+def s_eol(ex, data, q):
+    from pvc.models_io import eol
+    return eol(ex, data, q)
+
+
+def n_no_lf(data: bytes, lo: int, hi: int) -> bool:
+    return b"\n" not in data[lo:hi]
+
+
+def s_no_lf(ex, data, lo, hi):
+    """forall j in [lo, hi): data[j] != LF  -- proxy with both sound directions (hypothesis: instances at the
+    path's trigger terms; goal: Skolem witness)"""
+    rope = to_rope(data)
+    st = ex.st
+    loz, hiz = zint(lo), zint(hi)
+    if isinstance(lo, int) and isinstance(hi, int) and hi - lo <= 16:
+        acc = True
+        for j in range(lo, hi):
+            acc = ex.bm.and_(acc, mk_bool(rope.at(j) != 0x0A))
+        return acc
+    p = z3.Bool(fresh_name("nolf"))
+    kap = st.skolem("kap")
+    st.assume(mk_bool(z3.Implies(z3.Not(p), z3.And(kap >= loz, kap < hiz, rope.at(kap) == 0x0A))))
+    st.add_forall(lambda j, p=p, loz=loz, hiz=hiz, rope=rope: z3.Implies(z3.And(p, j >= loz, j < hiz), rope.at(j) != 0x0A))
+    return SBool(p)
+
+
+def _stream_parts(ex, obj):
+    """(data rope, pos, n) of an abstract stream: StreamModel, or a SocketWrapper over the ghost socket
+    (data = everything the peer sends, pos = bytes delivered by recv minus bytes still buffered)"""
+    from pvc.models_io import StreamModel
+    from pvc.values import Ref
+    st = ex.st
+    if isinstance(obj, Ref) and obj.cls is StreamModel:
+        rec = st.rec(obj)
+        return SBytes.view(rec["data"], 0, rec["n"]), mk_int(rec["pos"]), mk_int(rec["n"])
+    if isinstance(obj, Ref) and getattr(obj.cls, "__name__", "") == "SocketWrapper":
+        f = st.rec(obj)["fields"]
+        srec = st.rec(f["_socket"])
+        buf = f["_buffer"]
+        blen = zint(ex.bm.b_len(buf))
+        return SBytes.view(srec["total"], 0, srec["n"]), mk_int(srec["d"] - blen), mk_int(srec["n"])
+    raise Unsupported("stream accessor on unknown object")
+
+
+def s_st_data_of_input(ex, obj):
+    """bytes a reader input stands for: the stream's contents, or everything the socket's peer sends"""
+    from pvc.models_io import SocketModel
+    from pvc.values import Ref
+    if isinstance(obj, Ref) and obj.cls is SocketModel:
+        rec = ex.st.rec(obj)
+        return SBytes.view(rec["total"], 0, rec["n"])
+    return _stream_parts(ex, obj)[0]
+
+
+def s_st_pos_of_input(ex, obj):
+    from pvc.models_io import SocketModel
+    from pvc.values import Ref
+    if isinstance(obj, Ref) and obj.cls is SocketModel:
+        return mk_int(ex.st.rec(obj)["d"])
+    return _stream_parts(ex, obj)[1]
+
+
+def s_st_data(ex, obj):
+    return _stream_parts(ex, obj)[0]
+
+
+def s_st_pos(ex, obj):
+    return _stream_parts(ex, obj)[1]
+
+
+def s_st_n(ex, obj):
+    return _stream_parts(ex, obj)[2]
+
+
 def install(reg):
+    reg.spec("no_lf", s_no_lf, n_no_lf)
+    reg.spec("st_data", s_st_data, None)
+    reg.spec("st_data_of_input", s_st_data_of_input, None)
+    reg.spec("st_pos_of_input", s_st_pos_of_input, None)
+    reg.spec("st_pos", s_st_pos, None)
+    reg.spec("st_n", s_st_n, None)
+    reg.spec("is_nmea_hdr2", s_is_nmea_hdr2, n_is_nmea_hdr2)
+    reg.spec("eol", s_eol, n_eol)
+    reg.spec("ext_parse", s_ext_parse, n_ext_parse)
     reg.spec("tzc", s_tzc, n_tzc)
     reg.spec("getinputmode_spec", s_getinputmode_spec, n_getinputmode_spec)
     reg.spec("unpackf", s_unpackf, n_unpackf)
